@@ -5,6 +5,7 @@ import (
 	"errors"
 	"fmt"
 	"sort"
+	"time"
 
 	"github.com/pomerium/webauthn"
 	"github.com/pomerium/webauthn/cose"
@@ -221,6 +222,15 @@ func runRegisterImpl(op M) M {
 		if uv, ok := op["authSelUV"].(string); ok {
 			opts.AuthenticatorSelection = &webauthn.AuthenticatorSelectionCriteria{UserVerification: webauthn.UserVerificationRequirement(unhx(uv))}
 		}
+		if in, ok := op["inert"].(M); ok {
+			opts.RP = webauthn.PublicKeyCredentialRPEntity{ID: string(unhx(in["rpId"].(string))), Name: "relying party"}
+			opts.Timeout = time.Duration(num(in["timeoutMs"])) * time.Millisecond
+			opts.User.Name, opts.User.DisplayName = "user", "User"
+			if e, _ := in["ext"].(bool); e {
+				opts.Extensions = map[string]interface{}{"credProps": true}
+				opts.Attestation = webauthn.AttestationConveyancePreference(pick(NewRNG(uint64(num(in["timeoutMs"]))), []string{"none", "direct", "indirect", "enterprise"}))
+			}
+		}
 		cred := &webauthn.PublicKeyCreationCredential{RawID: unhx(op["rawId"].(string)),
 			Response: webauthn.AuthenticatorAttestationResponse{ClientDataJSON: unhx(op["cdj"].(string)), AttestationObject: unhx(op["attObj"].(string))}}
 		res, err := rp.VerifyRegistrationCeremony(context.Background(), opts, cred, verifyOptsFromOp(op)...)
@@ -249,12 +259,26 @@ func runRegisterImpl(op M) M {
 
 func runAuthImpl(op M) M {
 	st := storeFromOp(op)
+	return runAuthImplOn(nil, st, op)
+}
+
+// runAuthImplOn: the authentication ceremony of op on the given RelyingParty (a fresh one over st when rp is nil)
+func runAuthImplOn(rp *webauthn.RelyingParty, st *faultStore, op M) M {
 	return guard(func() M {
-		rp := webauthn.NewRelyingParty(string(unhx(op["origin"].(string))), st)
+		if rp == nil {
+			rp = webauthn.NewRelyingParty(string(unhx(op["origin"].(string))), st)
+		}
 		opts := &webauthn.PublicKeyCredentialRequestOptions{Challenge: unhx(op["challenge"].(string)),
 			UserVerification: webauthn.UserVerificationRequirement(unhx(op["uv"].(string)))}
 		for i, id := range hexList(op["allow"]) {
 			opts.AllowCredentials = append(opts.AllowCredentials, webauthn.PublicKeyCredentialDescriptor{Type: descriptorType(op, i), ID: id})
+		}
+		if in, ok := op["inert"].(M); ok {
+			opts.RPID = string(unhx(in["rpId"].(string)))
+			opts.Timeout = time.Duration(num(in["timeoutMs"])) * time.Millisecond
+			if e, _ := in["ext"].(bool); e {
+				opts.Extensions = map[string]interface{}{"appid": "https://example.com/appid.json", "uvm": true}
+			}
 		}
 		cred := &webauthn.PublicKeyAssertionCredential{RawID: unhx(op["rawId"].(string)),
 			Response: webauthn.AuthenticatorAssertionResponse{ClientDataJSON: unhx(op["cdj"].(string)), AuthenticatorData: unhx(op["authData"].(string)),
